@@ -362,6 +362,11 @@ func genC11(r *rand.Rand, run int, _ string) *Scenario {
 			if op.Kind == "restoreExpiring" {
 				// an entry with an expiry arrives through Restore (e.g. imported from a cache with a TTL)
 				op.HasTTL, op.TTLNs = true, pick(r, 100*24*3600*sec, -pick(r, int64(1), dea/2, dea-ms), -(dea+pick(r, ms, dea, 10*dea)), -(dea+pick(r, ms, dea, 10*dea)))
+
+				// in a third of the cases the stream breaks right after the record (a failed transfer)
+				if chance(r, 0.33) {
+					op.SrcServes = 1
+				}
 			}
 
 			be.Root = append(be.Root, op)
@@ -1071,7 +1076,18 @@ func (r *beRun) restoreExpiring(m *refModel, i int, op *BEOp) {
 	_, _ = src.dump(&buf)
 	src.stop()
 
-	if n, err := r.bk.restore(&buf); n != 1 || err != nil {
+	if op.SrcServes == 1 {
+		// (field reused as a flag, see genC11) the stream breaks after the record: the transfer failed, what had
+		// been restored by then is in the cache all the same
+		buf.Write([]byte{0x03, 0xff, 0xfe})
+		r.e.out.fault("restore_stream_corrupt_tail")
+
+		if n, err := r.bk.restore(&buf); n != 1 || err == nil {
+			r.e.out.Internal = fmt.Sprintf("restore of a one-entry dump with a corrupt tail gave (%d, %v)", n, err)
+
+			return
+		}
+	} else if n, err := r.bk.restore(&buf); n != 1 || err != nil {
 		r.e.out.Internal = fmt.Sprintf("restore of a one-entry dump gave (%d, %v)", n, err)
 
 		return
